@@ -307,6 +307,9 @@ def find_blocked_reactions(
                 )
         if reaction_list is None:
             reaction_list = model.reactions
+        else:
+            # identifiers are allowed, too
+            reaction_list = model.reactions.get_by_any(list(reaction_list))
         # Limit the search space to reactions which have zero flux. If the
         # reactions already carry flux in this solution,
         # then they cannot be blocked.
